@@ -464,9 +464,69 @@ func init() {
 
 func (s resolverSuite) Name() string { return s.name }
 
+// strictBoundary: a dependency with a STRICT operator whose version text is byte-identical to an existing version
+// of its target (`foo>1.0-r0` next to foo-1.0-r0), the target having dependencies of its own (so that it is
+// "selected" when chosen earlier in the walk) and something else depending on the target without a version —
+// the boundary where `>`/`<` and `>=`/`<=` part ways on the already-selected path of getPackageDependencies.
+// Uses its own generator state: the stream of the rest of the case is the same with and without it.
+func strictBoundary(r *Rng, g *rgen, indexes []rIndex) (ask []string) {
+	rr := &Rng{s: r.s ^ 0x5bd1e9955bd1e995}
+	if !rr.Chance(22) || len(g.names) < 3 {
+		return nil
+	}
+	type at struct{ i, j int }
+	var all []at
+	for i := range indexes {
+		for j := range indexes[i].Pkgs {
+			all = append(all, at{i, j})
+		}
+	}
+	if len(all) < 3 {
+		return nil
+	}
+	t := Pick(rr, all)
+	target := &indexes[t.i].Pkgs[t.j]
+	if len(target.Deps) == 0 {
+		o := Pick(rr, g.names)
+		if o != target.Name {
+			target.Deps = append(target.Deps, o)
+		}
+	}
+	a, b := Pick(rr, all), Pick(rr, all)
+	pa, pb := &indexes[a.i].Pkgs[a.j], &indexes[b.i].Pkgs[b.j]
+	if pa.Name == target.Name || pb.Name == target.Name {
+		return nil
+	}
+	pa.Deps = append(pa.Deps, target.Name)
+	pb.Deps = append(pb.Deps, target.Name+Pick(rr, []string{">", "<", ">", "<", ">=", "<="})+target.Version)
+	if rr.Chance(50) && pa.Name != pb.Name {
+		// one package pulls in both, the plain request first or second
+		pa.Deps = append(pa.Deps, pb.Name)
+		if rr.Chance(60) {
+			return []string{pa.Name}
+		}
+		return nil
+	}
+	if rr.Chance(60) {
+		// both requested by the world: the plain request is met first (the build path sorts the world)
+		if pa.Name < pb.Name || rr.Chance(30) {
+			return []string{pa.Name, pb.Name}
+		}
+		return []string{pb.Name, pa.Name}
+	}
+	return nil
+}
+
 func (s resolverSuite) Gen(r *Rng, i int, tier string) any {
 	g, indexes := genUniverse(r, tier == "thorough" && r.Chance(40))
+	ask := strictBoundary(r, g, indexes)
 	world := genWorld(g, indexes)
+	if len(ask) > 0 {
+		if len(world) > 2 {
+			world = world[:2]
+		}
+		world = append(world, ask...)
+	}
 	if s.name != "multiarch" {
 		c := rCase{Archs: []rArch{{Arch: "x86_64", Indexes: indexes}}, World: world}
 		for k := r.Intn(3); k > 0; k-- {
